@@ -1,6 +1,7 @@
 package main
 
 import (
+	"bytes"
 	"bufio"
 	"encoding/binary"
 	"encoding/hex"
@@ -335,7 +336,24 @@ func runKvs(seed int64, ncalls int, out string, budget int) {
 			fmt.Fprintf(w, "G %d %s panic - 0 0\nGE\n", cp.n, cp.pat)
 			continue
 		}
-		fmt.Fprintf(w, "G %d %s ok %s 0 0\nGE\n", cp.n, cp.pat, digest(cands, logReader(rs.VerifLog())))
+		// what the recovered store answers must be what is on its recovered disk (which the model driver compares
+		// with a prefix of the acknowledged puts): every key, through Get
+		rd := logReader(rs.VerifLog())
+		nbad := 0
+		func() {
+			defer func() {
+				if e := recover(); e != nil {
+					nbad += 1000000
+				}
+			}()
+			for k := uint64(513); k < sz; k++ {
+				p, ok := rs.Get(k)
+				if !ok || p == nil || !bytes.Equal(p.Val, rd(k)) {
+					nbad++
+				}
+			}
+		}()
+		fmt.Fprintf(w, "G %d %s ok %s 0 0\nGK %d\nGE\n", cp.n, cp.pat, digest(cands, rd), nbad)
 		rs.Delete()
 	}
 }
